@@ -3971,7 +3971,8 @@ impl CanonicalizeContext {
 				let previous_child = top(&parse_stack).last_child_in_mrow();
 				if let Some(previous_child) = previous_child {
 					let base_of_previous_child = get_possible_embellished_node(previous_child);
-					if name(&base_of_previous_child) != "mo" {
+					// an embellished element whose base is a white space 'mo' can have been taken as an operand, so ask the parse state also
+					if name(&base_of_previous_child) != "mo" || top(&parse_stack).is_operand {
 						let likely_function_name = self.is_function_name(previous_child, Some(&children[i_child..]));
 						if name(&base_of_child) == "mtext" && as_text(base_of_child) == "\u{00A0}" {
 							base_of_child.set_attribute_value("data-function-likelihood", &(likely_function_name == FunctionNameCertainty::True).to_string());
